@@ -32,7 +32,7 @@ fn envelope(tid: u32, ro: bool, rs: ResponseSpecific) -> Message {
 }
 
 //@ ob: C02.O4a
-//@ tier: thorough
+//@ tier: off
 //@ cap: 2700
 //@ mem: 20
 //@ standins: tracing lru vcoll
@@ -93,7 +93,7 @@ fn c02_o4a_immutable_glue() {
 }
 
 //@ ob: C02.O4b
-//@ tier: thorough
+//@ tier: off
 //@ cap: 3000
 //@ mem: 28
 //@ standins: tracing lru vcoll
